@@ -65,7 +65,21 @@ def run_impl(built, cases, tier):
     default = next(iter(built["exes"]))
     have = [k for k, c in enumerate(cases) if G.schema_of(c.line, default)[0] in built["exes"]]
     res = ["SKIP schema not built in this tier"] * len(cases)
-    out = G.run_impl_multi(built, [cases[k] for k in have], tier)
+    # the memory errors of the known findings kill the process: no symbolisation (slow on a loaded
+    # machine; the crash text is reduced to CRASH anyway), generous per-case timeout
+    import os
+    saved = {k: os.environ.get(k) for k in ("ASAN_OPTIONS", "UBSAN_OPTIONS")}
+    os.environ["ASAN_OPTIONS"] = ("detect_leaks=0:abort_on_error=0:halt_on_error=1:allocator_may_return_null=1:"
+                                  "detect_stack_use_after_return=0:symbolize=0")
+    os.environ["UBSAN_OPTIONS"] = "print_stacktrace=0:halt_on_error=1:symbolize=0"
+    try:
+        out = G.run_impl_multi(built, [cases[k] for k in have], tier, per_case_timeout=90)
+    finally:
+        for k, v in saved.items():
+            if v is None:
+                os.environ.pop(k, None)
+            else:
+                os.environ[k] = v
     for k, r in zip(have, out):
         res[k] = r
     return res
